@@ -110,8 +110,12 @@ pub fn run(ctx: &Ctx) -> i32 {
         let sbn = sbns[w / 256];
         let b1 = (w % 256) as u8;
         let mut local_bad = 0u32;
+        let mut nontriv = 0u64;
         for b2 in 0..=255u8 {
             for b3 in 0..=255u8 {
+                if b1 != 0 && b2 != 0 && b3 != 0 && b1 != b2 && b2 != b3 && b1 != b3 {
+                    nontriv += 1;
+                }
                 if let Err(m) = check_pid_bytes([sbn, b1, b2, b3]) {
                     local_bad += 1;
                     if local_bad < 4 {
@@ -122,7 +126,7 @@ pub fn run(ctx: &Ctx) -> i32 {
         }
         st.eval(65536);
         // non-trivial: ids whose three ESI bytes are pairwise distinct and non-zero (byte order observable)
-        if b1 != 0 { st.nontriv(254 * 253 - if b1 as usize > 0 { 0 } else { 0 }); }
+        st.nontriv(nontriv);
     });
     st.set_counter("payload_ids", sbns.len() as u64 * (1 << 24));
     // new() must refuse 25-bit ESIs
@@ -134,7 +138,13 @@ pub fn run(ctx: &Ctx) -> i32 {
     }
     // ---- packets
     let mut lens: Vec<usize> = (0..=300).collect();
-    lens.push(65535);
+    // around every power of two up to 2^17 (the payload length is not a wire field: nothing may narrow it)
+    for sh in 9..=17 {
+        for d in [-1i64, 0, 1] {
+            lens.push(((1i64 << sh) + d) as usize);
+        }
+    }
+    lens.push(100_000);
     let mut ids: Vec<(u8, u32)> = vec![];
     for &sbn in &[0u8, 1, 128, 255] {
         for &esi in &[0u32, 1, 255, 256, 257, 65535, 65536, 65537, 0x010203, 0x800000, 0xABCDEF, 0xFFFF00, 0xFFFFFE, 0xFFFFFF, 0x00FF00, 0xFF00FF] {
@@ -207,7 +217,7 @@ pub fn run(ctx: &Ctx) -> i32 {
     let exhaustive_ids = sbns.len() == 256;
     finish(ctx, &st, Finish {
         level: "exploration",
-        rule: format!("PayloadId: every 4-byte string for {} SBN values x all 2^24 ESIs (deserialize, accessors, serialize, new, reference layout){}; EncodingPacket: payload lengths 0..=300 and 65535 x 64 boundary IDs; OTI: each field exhaustively over its whole bit width (F byte lanes + single bits + limits, T 2^16, Z 2^8, N 2^16, Al 2^8, reserved byte 2^8) against 3 backgrounds, valid values also through the constructor. Non-trivial: ids with a non-zero top ESI byte and pairwise distinct lower bytes; every OTI buffer and packet.", sbns.len(), if exhaustive_ids { " = all 2^32 payload IDs" } else { "" }),
+        rule: format!("PayloadId: every 4-byte string for {} SBN values x all 2^24 ESIs (deserialize, accessors, serialize, new, reference layout){}; EncodingPacket: payload lengths 0..=300, 2^k-1..2^k+1 for k=9..17 (incl. 65535, 65536, 131072) and 100000 x 64 boundary IDs; OTI: each field exhaustively over its whole bit width (F byte lanes + single bits + limits, T 2^16, Z 2^8, N 2^16, Al 2^8, reserved byte 2^8) against 3 backgrounds, valid values also through the constructor. Non-trivial (counted): ids whose three ESI bytes are non-zero and pairwise distinct (byte order observable); every OTI buffer and packet.", sbns.len(), if exhaustive_ids { " = all 2^32 payload IDs" } else { "" }),
         exhaustive: exhaustive_ids,
         assumptions: vec!["RFC 6330 3.2/3.3.2/3.3.3 field order and big-endian layout as written in the reference (rfcref::payload_id_bytes, oti_bytes)".into(), "OTI fields are independent: each output byte depends on one field only (verified lane by lane against three backgrounds), so the 88-bit product is not enumerated".into()],
         extra: Map::new(),
